@@ -96,6 +96,65 @@ where
 	Ok((ret_blind, ret_nonce))
 }
 
+/// XOR keys for the `initial_sec_key` / `initial_sec_nonce` copies kept in a context
+/// (initial_blind_xor_key, initial_nonce_xor_key), derived like the keys above under
+/// their own labels so that no pad is shared between two fields
+fn private_ctx_initial_xor_keys<K>(
+	keychain: &K,
+	slate_id: &[u8],
+) -> Result<([u8; SECRET_KEY_SIZE], [u8; SECRET_KEY_SIZE]), Error>
+where
+	K: Keychain,
+{
+	let root_key = keychain.derive_key(0, &K::root_key_id(), SwitchCommitmentType::Regular)?;
+	let derive = |label: &[u8]| {
+		// h(root_key|slate_id|label)
+		let mut hasher = Blake2b::new(SECRET_KEY_SIZE);
+		hasher.update(&root_key.0[..]);
+		hasher.update(&slate_id[..]);
+		hasher.update(label);
+		let mut ret = [0; SECRET_KEY_SIZE];
+		ret.copy_from_slice(&hasher.finalize().as_bytes()[0..SECRET_KEY_SIZE]);
+		ret
+	};
+	Ok((derive(b"initial_blind"), derive(b"initial_nonce")))
+}
+
+/// Marker byte following a stored context whose `initial_sec_key` / `initial_sec_nonce`
+/// are XORed as well. Contexts written by earlier versions carry no marker and hold these
+/// two fields as they were; they remain readable.
+const CTX_INITIAL_MASKED: u8 = 1;
+
+/// A private context as stored in the DB
+struct StoredContext {
+	ctx: Context,
+	initial_masked: bool,
+}
+
+impl ser::Writeable for StoredContext {
+	fn write<W: ser::Writer>(&self, writer: &mut W) -> Result<(), ser::Error> {
+		ser::Writeable::write(&self.ctx, writer)?;
+		if self.initial_masked {
+			writer.write_u8(CTX_INITIAL_MASKED)?;
+		}
+		Ok(())
+	}
+}
+
+impl ser::Readable for StoredContext {
+	fn read<R: ser::Reader>(reader: &mut R) -> Result<StoredContext, ser::Error> {
+		let ctx = <Context as ser::Readable>::read(reader)?;
+		let initial_masked = match reader.read_u8() {
+			Ok(m) => m == CTX_INITIAL_MASKED,
+			Err(_) => false,
+		};
+		Ok(StoredContext {
+			ctx,
+			initial_masked,
+		})
+	}
+}
+
 pub struct LMDBBackend<'ck, C, K>
 where
 	C: NodeClient + 'ck,
@@ -347,13 +406,21 @@ where
 		let (blind_xor_key, nonce_xor_key) =
 			private_ctx_xor_keys(&self.keychain(keychain_mask)?, slate_id)?;
 
-		let mut ctx: Context = option_to_not_found(self.db.get_ser(&ctx_key, None), || {
+		let (initial_blind_xor_key, initial_nonce_xor_key) =
+			private_ctx_initial_xor_keys(&self.keychain(keychain_mask)?, slate_id)?;
+
+		let stored: StoredContext = option_to_not_found(self.db.get_ser(&ctx_key, None), || {
 			format!("Slate id: {:x?}", slate_id.to_vec())
 		})?;
+		let mut ctx = stored.ctx;
 
 		for i in 0..SECRET_KEY_SIZE {
 			ctx.sec_key.0[i] ^= blind_xor_key[i];
 			ctx.sec_nonce.0[i] ^= nonce_xor_key[i];
+			if stored.initial_masked {
+				ctx.initial_sec_key.0[i] ^= initial_blind_xor_key[i];
+				ctx.initial_sec_nonce.0[i] ^= initial_nonce_xor_key[i];
+			}
 		}
 
 		Ok(ctx)
@@ -735,17 +802,26 @@ where
 		let ctx_key = to_key_u64(PRIVATE_TX_CONTEXT_PREFIX, &mut slate_id.to_vec(), 0);
 		let (blind_xor_key, nonce_xor_key) = private_ctx_xor_keys(self.keychain(), slate_id)?;
 
+		let (initial_blind_xor_key, initial_nonce_xor_key) =
+			private_ctx_initial_xor_keys(self.keychain(), slate_id)?;
+
 		let mut s_ctx = ctx.clone();
 		for i in 0..SECRET_KEY_SIZE {
 			s_ctx.sec_key.0[i] ^= blind_xor_key[i];
 			s_ctx.sec_nonce.0[i] ^= nonce_xor_key[i];
+			s_ctx.initial_sec_key.0[i] ^= initial_blind_xor_key[i];
+			s_ctx.initial_sec_nonce.0[i] ^= initial_nonce_xor_key[i];
 		}
+		let stored = StoredContext {
+			ctx: s_ctx,
+			initial_masked: true,
+		};
 
 		self.db
 			.borrow()
 			.as_ref()
 			.unwrap()
-			.put_ser(&ctx_key, &s_ctx)?;
+			.put_ser(&ctx_key, &stored)?;
 		Ok(())
 	}
 
